@@ -38,6 +38,7 @@ import logic
 import h4_support as h4
 import h4_round5 as r5
 import h4_round6 as r6
+import h4_round7 as r7
 from gen import names as gnames
 from gen import srcdict
 
@@ -435,6 +436,8 @@ def gen_files(rnd):
                 continue
         else:
             p = gen_path(rnd, names)
+        if paths and rnd.random() < 0.12:              # CASE TWIN of an existing path (folder name or file name): two files
+            p = r7.case_twin(rnd.choice(paths), rnd, keep_ext=rnd.random() < 0.7) or p
         if p not in paths and not p.startswith("./"):
             paths.append(p)
     return [(p,) + gen_meta(rnd, nlang) for p in paths]
